@@ -124,6 +124,14 @@ func CheckC05(spec *vexec.CaseSpec, out *vexec.Outcome, controlled bool) (rs []R
 				add("started-after-stop:"+scen, "step %s was launched (event %d) and its command started (event %d) after the stop had been accepted (event %d)", name, la, en, T)
 			}
 		}
+		// the stop was injected from this step's own launch hook: its worker has not
+		// begun, so every cancel check of that worker comes after the stop
+		if stopHost == name && spec.Stop != nil && spec.Stop.At == "launch" && !timeout && controlled {
+			obligations++
+			if en, ok := after(l.enters); ok {
+				add("started-after-stop:"+scen, "step %s was being launched when the stop was accepted (event %d) and its command was started afterwards (event %d)", name, T, en)
+			}
+		}
 		if timeout {
 			if en, ok := after(l.enters); ok {
 				add("started-after-timeout", "step %s's command started (event %d) after the DAG timeout had elapsed (event %d)", name, en, T)
